@@ -9,6 +9,7 @@ import (
 	"sync/atomic"
 
 	iec "github.com/nspcc-dev/neofs-node/internal/ec"
+	"github.com/nspcc-dev/neofs-node/pkg/util/verifhook"
 	neofscrypto "github.com/nspcc-dev/neofs-sdk-go/crypto"
 	"github.com/nspcc-dev/neofs-sdk-go/netmap"
 	"github.com/nspcc-dev/neofs-sdk-go/object"
@@ -86,6 +87,7 @@ func (t *distributedTarget) applyECRule(signer neofscrypto.Signer, obj object.Ob
 		prog = newECProgress(nodeList, ecRule)
 	)
 
+	verifhook.PointN("put.ec.applyRule", len(payloadParts))
 	for partIdx := range payloadParts {
 		eg.Go(func() error {
 			if err := t.formAndSaveObjectForECPart(prog, signer, obj, ruleIdx, partIdx, payloadParts, nodeList); err != nil {
@@ -173,6 +175,7 @@ func (t *distributedTarget) saveECPartWithProgress(prog *ecProgress, part object
 func (t *distributedTarget) distributeECPart(prog *ecProgress, part object.Object, enc encodedObject, ruleIdx, partIdx, totalParts int, nodeList []netmap.NodeInfo) error {
 	var firstErr error
 	for i := range iec.NodeSequenceForPart(partIdx, totalParts, len(nodeList)) {
+		verifhook.PointN("put.ec.beforeTryNode", i)
 		if prog != nil && !prog.canTryNode(i) {
 			continue
 		}
